@@ -367,6 +367,36 @@ def run_case(rng, tier, case):
                        worst=float(np.max(np.abs(c_only - sh.c))) if c_only.shape == sh.c.shape and len(c_only) else None, n=[len(c_only), len(sh.c)])
         except Exception as e:
             case.check('purity.cost_vector_equals_problem_costs', False, history=hist, error='%s: %s' % (type(e).__name__, str(e)[:160]))
+    # the split set-up with a window given as a date, on the used objects vs. freshly built ones (the date refers to the grid handed in, whatever grid
+    # the portfolio has seen last)
+    if not spec['grid']['freq'].endswith('d') and rng.random() < 0.25:
+        try:
+            with env.quiet():
+                pts_ = gen.grid_points(spec['grid'])
+                dsp = pts_[int(rng.integers(0, len(pts_)))]
+                isz = gen.pick(rng, ['6h', '12h', 'd'])
+                mk_fw = lambda: {'I': dsp if rng.random() < 0.5 else dsp.to_pydatetime(), 'x': np.zeros(200000)}
+                try:
+                    b6 = build(spec)
+                    sf_ = b6.portfolio.setup_split_optim_problem(b6.prices, b6.timegrid, interval_size=isz, fix_time_window=mk_fw())
+                except Exception:
+                    sf_ = None
+                if sf_ is not None:
+                    try:
+                        su_ = P.setup_split_optim_problem(b.prices, build_timegrid(spec['grid']), interval_size=isz, fix_time_window=mk_fw())
+                        dsu = None
+                        if len(su_.ops) != len(sf_.ops):
+                            dsu = 'number of intervals %d vs %d' % (len(su_.ops), len(sf_.ops))
+                        else:
+                            for k_, (o1, o2) in enumerate(zip(su_.ops, sf_.ops)):
+                                dk = problem_diff(Snap(o1), Snap(o2), rtol=1e-12, compare_mapping=False)
+                                if dk:
+                                    dsu = 'interval %d: %s' % (k_, dk); break
+                        case.check('purity.split_problem_with_date_window_same_as_fresh', dsu is None, history=hist, diff=dsu, interval=isz)
+                    except Exception as e6:
+                        case.check('purity.split_problem_with_date_window_same_as_fresh', False, history=hist, interval=isz, error='%s: %s' % (type(e6).__name__, str(e6)[:160]))
+        except Exception:
+            pass
     # user-supplied price data: unchanged by everything that was done with them
     pr_now_changed = [k_ for k_, v_ in b.prices.items() if not np.array_equal(np.asarray(v_, float), np.asarray(spec['prices'][k_], float))]
     case.check('purity.price_data_untouched', not pr_now_changed, history=hist, changed_keys=pr_now_changed[:4])
